@@ -140,9 +140,7 @@ fn check_4_points_2_contours(style: PathStyle) {
 }
 
 // @bound exactly 4 points, two contour entries with symbolic end points, symbolic coordinates and flags; unwind 6
-// @tier thorough
-// @timeout 3600
-// @mem 30
+// @timeout 420
 #[cfg_attr(kani, kani::proof)]
 #[cfg_attr(kani, kani::unwind(6))]
 pub fn c12_to_path_well_formed_two_contours_freetype_style() {
@@ -150,13 +148,66 @@ pub fn c12_to_path_well_formed_two_contours_freetype_style() {
 }
 
 // @bound exactly 4 points, two contour entries with symbolic end points, symbolic coordinates and flags; unwind 6
-// @tier thorough
-// @timeout 3600
-// @mem 30
+// @timeout 420
 #[cfg_attr(kani, kani::proof)]
 #[cfg_attr(kani, kani::unwind(6))]
 pub fn c12_to_path_well_formed_two_contours_harfbuzz_style() {
     check_4_points_2_contours(PathStyle::HarfBuzz);
+}
+
+/// Fixed-size variant: exactly 6 points and 2 contour entries.
+fn check_6_points_2_contours(style: PathStyle) {
+    let points: [Point<i32>; 6] = [
+        Point::new(kani::any(), kani::any()),
+        Point::new(kani::any(), kani::any()),
+        Point::new(kani::any(), kani::any()),
+        Point::new(kani::any(), kani::any()),
+        Point::new(kani::any(), kani::any()),
+        Point::new(kani::any(), kani::any()),
+    ];
+    let flags: [PointFlags; 6] = [
+        PointFlags::from_bits(kani::any()),
+        PointFlags::from_bits(kani::any()),
+        PointFlags::from_bits(kani::any()),
+        PointFlags::from_bits(kani::any()),
+        PointFlags::from_bits(kani::any()),
+        PointFlags::from_bits(kani::any()),
+    ];
+    let contours: [u16; 2] = [kani::any(), kani::any()];
+    let mut pen = GrammarPen::default();
+    let r = to_path(&points, &flags, &contours, style, &mut pen);
+    if r.is_ok() {
+        assert!(!pen.bad);
+        assert!(!pen.open);
+        assert!(pen.moves == pen.closes);
+        assert!(pen.moves <= 2);
+        assert!(!pen.non_finite);
+        if pen.segments > 0 {
+            assert!(pen.moves > 0);
+        }
+        kani::cover!(pen.moves == 2, "two contours drawn");
+    }
+    kani::cover!(r.is_err(), "malformed outline rejected");
+}
+
+// @bound exactly 6 points, two contour entries with symbolic end points, symbolic coordinates and flags; unwind 8
+// @tier thorough
+// @timeout 3600
+// @mem 30
+#[cfg_attr(kani, kani::proof)]
+#[cfg_attr(kani, kani::unwind(8))]
+pub fn c12_to_path_well_formed_6_points_freetype_style() {
+    check_6_points_2_contours(PathStyle::FreeType);
+}
+
+// @bound exactly 6 points, two contour entries with symbolic end points, symbolic coordinates and flags; unwind 8
+// @tier thorough
+// @timeout 3600
+// @mem 30
+#[cfg_attr(kani, kani::proof)]
+#[cfg_attr(kani, kani::unwind(8))]
+pub fn c12_to_path_well_formed_6_points_harfbuzz_style() {
+    check_6_points_2_contours(PathStyle::HarfBuzz);
 }
 
 #[cfg(all(test, not(kani)))]
